@@ -87,6 +87,12 @@ fn call(ep: &Ep, k: OpKind, id: u32, var: u8) -> Result<Option<u32>, String> {
             let mm = vhost::vhost_user::message::VhostUserMMap { shmid: id as u8 + 1, fd_offset: 0, shm_offset: 0x1000, len: 0x1000, flags: 1, ..Default::default() };
             let file = crate::fdtrack::memfd(4096);
             let e = |e: std::io::Error| e.to_string();
+            if k == OpKind::Forget {
+                // not a request: the negotiated-acknowledgement setting is changed through another clone (what the thread
+                // serving SET_PROTOCOL_FEATURES does) — it must not take effect inside another caller's open transaction
+                b.set_reply_ack_flag(var % 2 == 0);
+                return Ok(None);
+            }
             match var % 5 {
                 0 => b.shared_object_add(&u).map(|_| None).map_err(e),
                 1 => b.shared_object_remove(&u).map(|_| None).map_err(e),
@@ -148,7 +154,7 @@ fn frame_owner(ep: Endpoint, f: &spec::Frame) -> Option<u32> {
 /// does a call of kind `k` on this endpoint wait for an answer?
 fn awaits(ep: Endpoint, k: OpKind) -> bool {
     match ep {
-        Endpoint::BackendProxy => true, // reply_ack is on: every request is acknowledged
+        Endpoint::BackendProxy => k != OpKind::Forget, // reply_ack is on: every request is acknowledged; Forget = flag change, no request
         _ => k != OpKind::Forget,
     }
 }
@@ -414,6 +420,12 @@ pub fn run_case(ctx: &mut Ctx, c: &Case) -> Result<(), String> {
             return Err(format!("two callers received the same sequence-numbered reply: {gpu_seq_seen:?}"));
         }
         let _ = released_order;
+        // (3) every answer the peer wrote has been consumed by a caller
+        let mut n: libc::c_int = 0;
+        unsafe { libc::ioctl(peer.sock.as_raw_fd(), libc::TIOCOUTQ, &mut n) };
+        if n > 0 {
+            return Err(format!("all callers returned, but an answer written by the peer was never read by its caller ({} request frames seen, send queue not empty)", peer.frames.len()));
+        }
         Ok(())
     })();
     sched.uninstall();
